@@ -497,6 +497,12 @@ func runOne(w *vh.Writer, sc Schedule, seed int64, randomSteps int, withClose bo
 		}
 		wd.release(g)
 	}
+	// in half of the runs the last caller is kept for a probe after the walk: a call started once everything else has settled,
+	// the servers then answering the oldest pending request first (the pattern that delivers a stale response to a later call)
+	walkCallers, cancelledSome := maxCallers, false
+	if seed%4 >= 2 {
+		walkCallers = maxCallers - 1
+	}
 	for step := 0; step < randomSteps; step++ {
 		parked := wd.releasable()
 		n := len(parked)
@@ -511,9 +517,11 @@ func runOne(w *vh.Writer, sc Schedule, seed int64, randomSteps int, withClose bo
 		g := 1 + wd.rnd.Intn(wd.ngen)
 		switch wd.rnd.Intn(14) {
 		case 0, 1, 2:
-			wd.env("StartCall", 1+wd.rnd.Intn(maxCallers), 0)
+			wd.env("StartCall", 1+wd.rnd.Intn(walkCallers), 0)
 		case 3, 4:
-			wd.env("Cancel", 1+wd.rnd.Intn(maxCallers), 0)
+			if wd.env("Cancel", 1+wd.rnd.Intn(walkCallers), 0) {
+				cancelledSome = true
+			}
 		case 5, 6, 7:
 			wd.env("SrvRead", g, 0)
 		case 8, 9, 10:
@@ -533,6 +541,9 @@ func runOne(w *vh.Writer, sc Schedule, seed int64, randomSteps int, withClose bo
 	}
 	// drain: the servers answer what they can, then go away; everything runs out
 	w.Emit(map[string]any{"ev": "note", "what": "drain"})
+	if walkCallers < maxCallers && (cancelledSome || seed%8 >= 6) {
+		wd.env("StartCall", maxCallers, 0)
+	}
 	for guard := 0; guard < 3000; guard++ {
 		parked := wd.releasable()
 		if len(parked) > 0 {
@@ -545,11 +556,14 @@ func runOne(w *vh.Writer, sc Schedule, seed int64, randomSteps int, withClose bo
 				progressed = true
 				break
 			}
+			oldest := -1
 			for id := range wd.pending[g] {
-				if wd.env("SrvReply", g, id) {
-					progressed = true
+				if oldest < 0 || id < oldest {
+					oldest = id
 				}
-				break
+			}
+			if oldest >= 0 && wd.env("SrvReply", g, oldest) {
+				progressed = true
 			}
 		}
 		if progressed {
